@@ -3,6 +3,7 @@ import copy
 
 from .. import gen, refcodec as rc
 from ..world import World, payload
+from ..preempt import call_preempted
 from . import common
 
 ID = 'C11'
@@ -12,8 +13,8 @@ RULE = ('two real J1939-22 stacks; a generated sequence of 1..12 send_pgn calls 
         'time_limit in {0, 1..200 ms}, FEFF end to end and FBFF decoded on the bus by the reference codec only, issued from the application context or '
         'from a timer callback at instants drawn over the job thread\'s sleep; every frame on the bus is decoded independently and matched against the '
         'submissions. non-trivial = at least one group was sent with a time limit (buffered); distinct = distinct scenario JSON')
-FAULT_COUNTERS = {'send_pgn while the job thread is parked at a source line of its pass (pre-emption)': 'preempted_submissions', 'send_pgn from inside the stack\'s own transmission (submission while the job thread flushes)': 'nested_submissions', 'send_pgn issued from a timer callback (job-thread context)': 'timer_ctx_groups', 'buffer-full flushes': 'full_buffer_flushes'}
-REQUIRED_PROBES = ['groups', 'buffered_groups', 'combined_frames', 'fbff_groups', 'timer_ctx_groups', 'full_buffer_flushes', 'preempted_submissions']
+FAULT_COUNTERS = {'application thread parked at a source line inside send_pgn (pre-emption)': 'preempted_calls', 'send_pgn while the job thread is parked at a source line of its pass (pre-emption)': 'preempted_submissions', 'send_pgn from inside the stack\'s own transmission (submission while the job thread flushes)': 'nested_submissions', 'send_pgn issued from a timer callback (job-thread context)': 'timer_ctx_groups', 'buffer-full flushes': 'full_buffer_flushes'}
+REQUIRED_PROBES = ['groups', 'buffered_groups', 'combined_frames', 'fbff_groups', 'timer_ctx_groups', 'full_buffer_flushes', 'preempted_submissions', 'preempted_calls']
 FEFF, FBFF = 3, 2
 
 
@@ -55,6 +56,10 @@ def generate(rng, tier, i):
     # pre-emption: the job thread is parked at its k-th source line (counted while a buffered group is waiting) and an
     # application thread submits a group for the same buffer exactly then
     scn['reuse_lists'] = rng.random() < 0.5
+    if rng.random() < 0.2:
+        cand = [c for c in calls if c['ctx'] == 'app' and c.get('on_tx') is None]
+        for c in rng.sample(cand, min(len(cand), rng.randint(1, 2))):
+            c['pre'] = {'k': rng.randint(1, 70), 'hold_us': rng.choice([20, 300, 3000, 20000])}
     buffered = [c for c in calls if c['tl_ms'] > 0 and c.get('on_tx') is None]
     if buffered and rng.random() < 0.2:
         src = rng.choice(buffered)
@@ -110,7 +115,7 @@ def execute(scn, keep_log=False, hook=None):
     S = w.stacks['S']
     viol = []
     stats = {'groups': 0, 'buffered_groups': 0, 'combined_frames': 0, 'fbff_groups': 0, 'timer_ctx_groups': 0, 'full_buffer_flushes': 0,
-             'mpg_frames': 0, 'nested_submissions': 0, 'preempted_submissions': 0}
+             'mpg_frames': 0, 'nested_submissions': 0, 'preempted_submissions': 0, 'preempted_calls': 0}
     t0 = sim.now
     sim.run_for(0.02)
     pending = []        # submissions not yet seen on the bus
@@ -177,6 +182,9 @@ def execute(scn, keep_log=False, hook=None):
             stats['full_buffer_flushes'] += 1
     bus.observers.append(observe)
 
+    in_call = [0]
+    app_holds = []
+
     def submit(c):
         ca = S.cas[c['ca']]
         data = payload(c['fill'], c['len'])
@@ -190,7 +198,18 @@ def execute(scn, keep_log=False, hook=None):
         stats['fbff_groups'] += int(c['ff'] == FBFF)
         stats['timer_ctx_groups'] += int(c['ctx'] == 'timer')
         buf = list(data)
-        ok = ca.send_pgn(c['dp'], c['pf'], c['ps'], c['prio'], buf, time_limit=c['tl_ms'] / 1000.0, frame_format=c['ff'])
+        # an application-context call may be parked at its k-th library source line inside send_pgn (job thread and reception run on)
+        pre = c.get('pre') if sim.current is None and not in_call[0] else None
+        in_call[0] += 1
+        try:
+            ok, tr = call_preempted(sim, (lambda: ca.send_pgn(c['dp'], c['pf'], c['ps'], c['prio'], buf, time_limit=c['tl_ms'] / 1000.0, frame_format=c['ff'])), pre)
+        finally:
+            in_call[0] -= 1
+        if tr is not None and tr.fired:
+            stats['preempted_calls'] += 1
+            # scheduling latency of this run: the time limit of this group runs from somewhere inside the call, and a thread parked
+            # while it holds the buffer lock keeps the job thread from sending anything else
+            app_holds.extend(tr.windows)
         if scn.get('reuse_lists'):
             # the application refills its scratch list for the next signal as soon as send_pgn has returned
             buf[:] = [0xEE] * (len(buf) + 1)
@@ -212,7 +231,7 @@ def execute(scn, keep_log=False, hook=None):
             return
         k = txn[0]
         txn[0] += 1
-        if nest[0]:
+        if nest[0] or in_call[0]:
             return
         for c in list(pend):
             if c['on_tx'] == k:
@@ -263,7 +282,7 @@ def execute(scn, keep_log=False, hook=None):
                      'msg': 'group %05X (%d bytes, limit %d ms) was not on the bus 6 s after submission' % (s['cpgn'], len(s['data']), s['tl'] // 1_000_000)})
     worst = None
     for s in done:
-        late = s['t_bus'] - s['t_sub'] - s['tl']
+        late = s['t_bus'] - s['t_sub'] - s['tl'] - sum(b - a for (a, b) in app_holds if a <= s['t_bus'] and b >= s['t_sub'])
         if lt is not None:
             # the job thread was held on purpose: that time is scheduling latency of this run
             late -= sum(b - a for (a, b) in lt.windows if a <= s['t_bus'] and b >= s['t_sub'])
